@@ -32,10 +32,10 @@ def configs(backends, pools=True, announce=False, bounce=False):
 
 _per = st.lists(st.sampled_from(['ok', 'temp', 'perm']), min_size=1, max_size=4)
 _outcome = st.one_of(
-    st.fixed_dictionaries({'shape': st.sampled_from(['map', 'map', 'seq']), 'per': _per,
-                           'replies': st.lists(st.integers(0, 3), min_size=1, max_size=4)}),
+    st.fixed_dictionaries({'shape': st.sampled_from(['map', 'map', 'seq']), 'per': _per, 'rev': st.sampled_from([False, False, True]),
+                           'replies': st.lists(st.integers(0, 4), min_size=1, max_size=4)}),
     st.fixed_dictionaries({'shape': st.sampled_from(['none', 'reply', 'raise_t', 'raise_t', 'raise_p', 'raise_x']),
-                           'replies': st.lists(st.integers(0, 3), min_size=1, max_size=1)}))
+                           'replies': st.lists(st.integers(0, 4), min_size=1, max_size=1)}))
 
 
 def _outcomes(fail_heavy):
@@ -43,10 +43,10 @@ def _outcomes(fail_heavy):
         return _outcome
     per = st.lists(st.sampled_from(['perm', 'perm', 'temp', 'ok']), min_size=1, max_size=4)
     return st.one_of(
-        st.fixed_dictionaries({'shape': st.sampled_from(['map', 'seq']), 'per': per,
-                               'replies': st.lists(st.integers(0, 3), min_size=1, max_size=4)}),
+        st.fixed_dictionaries({'shape': st.sampled_from(['map', 'seq']), 'per': per, 'rev': st.sampled_from([False, True]),
+                               'replies': st.lists(st.integers(0, 4), min_size=1, max_size=4)}),
         st.fixed_dictionaries({'shape': st.sampled_from(['raise_p', 'raise_t', 'raise_x']),
-                               'replies': st.lists(st.integers(0, 3), min_size=1, max_size=1)}))
+                               'replies': st.lists(st.integers(0, 4), min_size=1, max_size=1)}))
 
 
 def actions(weights, fail_heavy=False, bodies=False):
